@@ -130,10 +130,30 @@ def run(ctx):
         try:
             fs = StackingFault(hkl, ucell, cutboxvector=cutname)
         except ValueError as e:
+            # a refusal is the documented one only if the rotated cell really cannot have its cut vector normal to the plane in a
+            # LAMMPS-compatible box: cut 'a' needs xy = xz = 0, cut 'b' needs yz = 0, cut 'c' is always possible
             refusals += 1
+            try:
+                rc = ucell.rotate(free_surface_basis(hkl, box=ucell.box, cutboxvector=cutname))
+                tl = 1e-9 * np.abs(rc.box.vects).max()
+                legit = {'a': abs(rc.box.bvect[0]) > tl or abs(rc.box.cvect[0]) > tl, 'b': abs(rc.box.cvect[1]) > tl, 'c': False}[cutname]
+            except Exception:
+                legit = True
+            if not legit:
+                ctx.violation('an orientation compatible with the requested cut vector was refused', repr(e)[:200], {'ucell': name, 'hkl': hkl, 'cut': cutname})
             continue
         except Exception as e:
             ctx.violation('FreeSurface/StackingFault constructor raised %s' % excname(e), repr(e), {'ucell': name, 'hkl': hkl, 'cut': cutname})
+            continue
+        # the cut axis of the rotated cell is the plane normal (the two other box vectors lie in the plane)
+        n0 = am.tools.miller.plane_crystal_to_cartesian(np.array(hkl), ucell.box)
+        nr = np.asarray(fs.transform) @ n0
+        ec = np.zeros(3)
+        ec[cut] = 1.0
+        if np.linalg.norm(np.cross(nr / np.linalg.norm(nr), ec)) > 1e-8 or \
+                any(abs(fs.rcell.box.vects[i] @ nr) > 1e-8 * np.linalg.norm(nr) * np.linalg.norm(fs.rcell.box.vects[i]) for i in range(3) if i != cut):
+            ctx.violation('surface cell accepted although its in-plane box vectors do not lie in the requested plane', 'normal in the rotated frame %s' % np.round(nr, 6).tolist(),
+                          {'ucell': name, 'hkl': hkl, 'cut': cutname})
             continue
         uv = np.array(fs.uvws)[:, :3] if np.array(fs.uvws).shape[1] == 3 else np.array([[r_[0] - r_[2], r_[1] - r_[2], r_[3]] for r_ in fs.uvws])
         detuvw = int(round(abs(np.linalg.det(uv))))
